@@ -1,5 +1,6 @@
 // Manifest generators, raw layout builder and an independent base64 codec.
 #pragma once
+#include <optional>
 #include "ephemeralnet/protocol/Manifest.hpp"
 #include "gen_msg.hpp"
 #include "hx.hpp"
@@ -66,6 +67,51 @@ inline protocol::Manifest basic(hx::Rng& r, std::chrono::system_clock::time_poin
     m.expires_at = expires;
     m.shards = shards(r, n);
     return m;
+}
+
+// Independent serialiser of the version-4 manifest layout (written from the decoder's field order, not from
+// encode_manifest): what a foreign implementation would put on the wire.  nullopt when a count or length does not fit
+// its prefix.  expiry_seconds overrides the time_point (lets a test write any 64-bit value).
+inline std::optional<std::string> ref_encode(const protocol::Manifest& m, std::optional<std::uint64_t> expiry_seconds = std::nullopt) {
+    std::vector<std::uint8_t> b;
+    auto u16 = [&](std::size_t v) { b.push_back(static_cast<std::uint8_t>(v >> 8)); b.push_back(static_cast<std::uint8_t>(v & 0xff)); };
+    auto str = [&](const std::string& x) { b.insert(b.end(), x.begin(), x.end()); };
+    if (m.shards.size() > 255 || m.metadata.size() > 255 || m.discovery_hints.size() > 255 || m.fallback_hints.size() > 255 || m.security.advisory.size() > 65535) return std::nullopt;
+    b.push_back(4);
+    b.insert(b.end(), m.chunk_id.begin(), m.chunk_id.end());
+    b.insert(b.end(), m.chunk_hash.begin(), m.chunk_hash.end());
+    b.insert(b.end(), m.nonce.bytes.begin(), m.nonce.bytes.end());
+    const std::uint64_t exp = expiry_seconds ? *expiry_seconds
+                                             : static_cast<std::uint64_t>(std::chrono::duration_cast<std::chrono::seconds>(m.expires_at.time_since_epoch()).count());
+    for (int sh = 56; sh >= 0; sh -= 8) b.push_back(static_cast<std::uint8_t>(exp >> sh));
+    b.push_back(m.threshold);
+    b.push_back(m.total_shares);
+    b.push_back(static_cast<std::uint8_t>(m.shards.size()));
+    for (const auto& s : m.shards) { b.push_back(s.index); b.insert(b.end(), s.value.begin(), s.value.end()); }
+    b.push_back(static_cast<std::uint8_t>(m.metadata.size()));
+    for (const auto& [k, v] : m.metadata) {
+        if (k.size() > 255 || v.size() > 65535) return std::nullopt;
+        b.push_back(static_cast<std::uint8_t>(k.size())); str(k); u16(v.size()); str(v);
+    }
+    b.push_back(static_cast<std::uint8_t>(m.discovery_hints.size()));
+    for (const auto& h : m.discovery_hints) {
+        const std::string& scheme = h.scheme.empty() ? h.transport : h.scheme;
+        if (scheme.size() > 255 || h.transport.size() > 255 || h.endpoint.size() > 65535) return std::nullopt;
+        b.push_back(static_cast<std::uint8_t>(scheme.size())); str(scheme);
+        b.push_back(static_cast<std::uint8_t>(h.transport.size())); str(h.transport);
+        u16(h.endpoint.size()); str(h.endpoint);
+        b.push_back(h.priority);
+    }
+    b.push_back(m.security.token_challenge_bits);
+    u16(m.security.advisory.size()); str(m.security.advisory);
+    b.push_back(m.security.has_attestation_digest ? 1 : 0);
+    if (m.security.has_attestation_digest) b.insert(b.end(), m.security.attestation_digest.begin(), m.security.attestation_digest.end());
+    b.push_back(static_cast<std::uint8_t>(m.fallback_hints.size()));
+    for (const auto& h : m.fallback_hints) {
+        if (h.uri.size() > 65535) return std::nullopt;
+        u16(h.uri.size()); str(h.uri); b.push_back(h.priority);
+    }
+    return "eph://" + b64(b);
 }
 
 inline bool manifests_equal_norm(const protocol::Manifest& a, const protocol::Manifest& b, std::string& why) {
